@@ -231,4 +231,3 @@ def run(chk):
     chk.cov["bounds"] = {"closure": "complete", "L": 2 if quick else 3}
     for c in ("len", "iter", "match", "match_lru"):
         chk.clause(PROP + "." + c, checked=chk.cov["traces_validated_against_impl"], nontrivial=chk.cov["states"])
-    chk.sample({"cls": "NormalizedLRUTrie", "ops": [["set", "http://a.com/x", 1], ["set", "http://www.a.com/x/", 2]], "queries": "match on %d URLs" % len(QUERY_URLS)})
